@@ -10,6 +10,7 @@ structure Inv (cnf0 : CNF) (s : St) : Prop where
   ent : ∀ c ∈ s.cnf, Entailed cnf0 c
   trail : TrailOK s.cnf s.tr s.level
   trace : TraceOK s.cnf cnf0.length s.proofs
+  reb : ∃ sh, rebuild cnf0 s.proofs = some sh ∧ Shadow sh s.cnf
 
 theorem TrailOK.decide {cnf : CNF} {tr : Trail} {level : Nat} (h : TrailOK cnf tr level)
     (vars : List Nat) : TrailOK cnf (decideVar vars tr (level + 1)) (level + 1) := by
@@ -57,7 +58,8 @@ theorem mainLoop_spec (cnf0 : CNF) (vars : List Nat) (nvars af : Nat) :
     ∀ (fuel : Nat) (s : St) (pr : Prop'), Inv cnf0 s → PrOK s.cnf s.tr pr →
     (∀ a, mainLoop vars nvars af fuel s pr = .sat a → ∀ c ∈ cnf0, c.any (litTrue a) = true) ∧
     (∀ c' ps, mainLoop vars nvars af fuel s pr = .unsat c' ps →
-      (¬ ∃ σ, Sat σ cnf0) ∧ checkTrace c' cnf0.length ps = true ∧ c'.take cnf0.length = cnf0) := by
+      (¬ ∃ σ, Sat σ cnf0) ∧ checkTrace c' cnf0.length ps = true ∧ c'.take cnf0.length = cnf0 ∧
+      ∃ sh, rebuild cnf0 ps = some sh ∧ checkTrace sh cnf0.length ps = true) := by
   intro fuel
   induction fuel with
   | zero => intro s pr _ _; simp [mainLoop]
@@ -84,7 +86,7 @@ theorem mainLoop_spec (cnf0 : CNF) (vars : List Nat) (nvars af : Nat) :
       generalize unitPropagate (nvars + 2) s.cnf (decideVar vars s.tr (s.level + 1)) (s.level + 1) = up at hu
       obtain ⟨pr', tr'⟩ := up
       exact ih { s with tr := tr', level := s.level + 1 } pr'
-        ⟨hinv.pre, hinv.ent, hu.1, hinv.trace⟩ hu.2
+        ⟨hinv.pre, hinv.ent, hu.1, hinv.trace, hinv.reb⟩ hu.2
     · -- conflict
       rename_i cid
       obtain ⟨c0, hc0, hf0⟩ := hpr
@@ -94,10 +96,18 @@ theorem mainLoop_spec (cnf0 : CNF) (vars : List Nat) (nvars af : Nat) :
       · rename_i proof clause orc' han
         have hcid : cid < s.cnf.length := (List.getElem?_eq_some_iff.mp hc0).1
         have hc0m : c0 ∈ s.cnf := List.mem_iff_getElem?.mpr ⟨cid, hc0⟩
-        obtain ⟨hlt, hent, hrep⟩ := analyze_spec hinv.trail cnf0 hinv.ent af [cid] c0 s.orc
+        obtain ⟨hlt, hent, hrepAll⟩ := analyze_spec hinv.trail cnf0 hinv.ent af [cid] c0 s.orc
           proof clause orc' han (by simp) (by simpa using hcid) hf0 (hinv.ent c0 hc0m)
+        have hrep : Replays s.cnf proof clause := hrepAll s.cnf (Shadow.refl _)
           ⟨c0, by simp [replayProof, hc0], fun _ => Iff.rfl⟩
         have htrace := hinv.trace.learn hlt hrep
+        -- the same for the clause list rebuilt from the proofs alone
+        obtain ⟨sh, hsh, hshadow⟩ := hinv.reb
+        obtain ⟨c0', hc0', hc0m'⟩ := hshadow.get hc0
+        obtain ⟨r, hr, hrm⟩ := hrepAll sh hshadow ⟨c0', by simp [replayProof, hc0'], hc0m'⟩
+        have hreb : rebuild cnf0 (s.proofs ++ [(s.cnf.length, proof)]) = some (sh ++ [r]) := by
+          rw [← hshadow.1]; exact rebuild_snoc _ _ _ _ _ hsh hr
+        have hshadow' : Shadow (sh ++ [r]) (s.cnf ++ [clause]) := hshadow.snoc hrm
         obtain ⟨ext, hext⟩ := hinv.pre
         split
         · -- learned clause empty: unsatisfiable
@@ -107,11 +117,18 @@ theorem mainLoop_spec (cnf0 : CNF) (vars : List Nat) (nvars af : Nat) :
           cases h
           have : clause = [] := by simpa using hemp
           subst this
-          refine ⟨?_, htrace.checkTrace (by simp), ?_⟩
+          refine ⟨?_, htrace.checkTrace (by simp), ?_, sh ++ [r], hreb, ?_⟩
           · rintro ⟨σ, hσ⟩
             obtain ⟨l, hl, _⟩ := hent σ hσ
             cases hl
           · rw [hext, List.append_assoc, List.take_left]
+          · have hr0 : r = [] := by
+              cases r with
+              | nil => rfl
+              | cons x xs => exact absurd ((hrm x).mp List.mem_cons_self) (by simp)
+            subst hr0
+            have := rebuild_traceOK cnf0.length _ [] cnf0 _ (TraceOK.nil cnf0) hreb
+            exact TraceOK.checkTrace (by simpa using this) (by simp)
         · split
           · simp
           · rename_i bl hbl
@@ -121,7 +138,7 @@ theorem mainLoop_spec (cnf0 : CNF) (vars : List Nat) (nvars af : Nat) :
               (s.tr.filter (fun a => decide (a.lvl ≤ bl))) bl = up at hu
             obtain ⟨pr', tr'⟩ := up
             refine ih ⟨s.cnf ++ [clause], tr', bl, s.proofs ++ [(s.cnf.length, proof)], orc'⟩ pr'
-              ⟨⟨ext ++ [clause], by simp [hext]⟩, ?_, hu.1, htrace⟩ hu.2
+              ⟨⟨ext ++ [clause], by simp [hext]⟩, ?_, hu.1, htrace, sh ++ [r], hreb, hshadow'⟩ hu.2
             intro c hc
             rcases List.mem_append.mp hc with hc | hc
             · exact hinv.ent c hc
